@@ -112,7 +112,11 @@ def impl_run(matrix, kind="int", slog=0, want_trace=False, limit=5.0):
         for k in names:
             setattr(H, k, wrap(orig[k]))
         try:
-            (rows, cols), R = H.linear_sum_assignment(arr, return_cost=True)
+            import qcelemental.util as U
+            before = arr.copy()
+            (rows, cols), R = U.linear_sum_assignment(arr, return_cost=True)     # the public, module-level name
+            if arr.shape != before.shape or arr.dtype != before.dtype or not np.array_equal(arr, before):
+                rec["bad"] = "the caller's cost matrix was modified"
         except _Timeout:
             return ("Err", "Timeout")
         except Exception as e:
@@ -124,6 +128,8 @@ def impl_run(matrix, kind="int", slog=0, want_trace=False, limit=5.0):
             setattr(H, k, orig[k])
     R = np.asarray(R)
     rints = _to_ints(R, scale)
+    if rec["bad"] == "the caller's cost matrix was modified":
+        return ("Err", "InputModified")
     if rints is None or rec["bad"]:
         return ("Err", "NonDyadic")
     if R.ndim != 2:
@@ -140,10 +146,61 @@ def impl_run(matrix, kind="int", slog=0, want_trace=False, limit=5.0):
     return out
 
 
+def _mkarr(matrix, kind, slog):
+    if kind == "bool":
+        arr = np.array(matrix, dtype=bool)
+    elif kind == "dyadic":
+        arr = np.array(matrix, dtype=float) / float(1 << slog)
+    else:
+        arr = np.array(matrix, dtype=int)
+    if arr.ndim == 1 and len(matrix) == 0:
+        arr = arr.reshape(0, 0)
+    return arr
+
+
+def impl_variants(matrix, kind, slog, out, limit=5.0):
+    """the other ways of calling the solver on the same matrix, uninstrumented, after the instrumented run:
+    return_cost omitted / False (pairs only), a nested list instead of an array, the defining module's name, and the
+    return_cost=True call once more (history).  All must give the pairs (and reduced matrix) of the first run.
+    Returns None or a description."""
+    if out[0] != "Ok":
+        return None
+    import qcelemental.util as U
+    import qcelemental.util.scipy_hungarian as H
+    rows, cols, R = out[1], out[2], out[3]
+    scale = 1 << slog
+    old = signal.signal(signal.SIGVTALRM, _alarm)
+    signal.setitimer(signal.ITIMER_VIRTUAL, limit)
+    try:
+        arr = _mkarr(matrix, kind, slog)
+        for label, call in (("return_cost omitted", lambda: U.linear_sum_assignment(arr)),
+                            ("return_cost=False", lambda: H.linear_sum_assignment(arr, return_cost=False)),
+                            ("nested-list input", lambda: U.linear_sum_assignment(arr.tolist()) if arr.size else U.linear_sum_assignment(arr))):
+            res = call()
+            if not (isinstance(res, tuple) and len(res) == 2):
+                return f"{label}: result is not a (row_ind, col_ind) pair"
+            r2, c2 = [int(x) for x in np.asarray(res[0]).tolist()], [int(x) for x in np.asarray(res[1]).tolist()]
+            if r2 != rows or c2 != cols:
+                return f"{label}: pairs {r2},{c2} differ from those of return_cost=True {rows},{cols}"
+        (r3, c3), R3 = H.linear_sum_assignment(arr, return_cost=True)
+        R3i = _to_ints(np.asarray(R3), scale)
+        flat = [v for r in R for v in r]
+        if [int(x) for x in r3.tolist()] != rows or [int(x) for x in c3.tolist()] != cols or R3i != flat:
+            return "a second return_cost=True call on the same matrix gave a different answer"
+    except _Timeout:
+        return "variant call did not terminate"
+    except Exception as e:
+        return f"variant call raised {type(e).__name__}"
+    finally:
+        signal.setitimer(signal.ITIMER_VIRTUAL, 0)
+        signal.signal(signal.SIGVTALRM, old)
+    return None
+
+
 def _work(job):
     matrix, kind, slog = job
     out = impl_run(matrix, kind, slog)
-    bad = oracle(matrix, out)
+    bad = oracle(matrix, out) or impl_variants(matrix, kind, slog, out)
     return out, bad
 
 
@@ -215,6 +272,8 @@ def py_check_cert(C, rows, cols, R):
 def oracle(matrix, out, brute_limit=8):
     """the property, on the implementation's answer for a finite matrix (exact integers)."""
     if out[0] == "Err":
+        if out[1] == "InputModified":
+            return "the caller's cost matrix was modified by the call"
         return f"finite matrix refused or crashed: {out[1]}"
     rows, cols, R = out[1], out[2], out[3]
     bad = py_check_cert(matrix, rows, cols, R)
@@ -377,7 +436,7 @@ def _work_enum(job):
     _stream, n, m, b, k = job
     M = enum_matrix(n, m, b, k)
     out = impl_run(M)
-    return out, oracle(M, out)
+    return out, oracle(M, out) or impl_variants(M, "int", 0, out)
 
 
 REFUSALS = [
@@ -618,7 +677,7 @@ def search(ctx, corr, reasons):
         if c.get("kind") == "refuse":
             continue
         out = impl_run(c["matrix"], c["kind"], c["scale_log2"])
-        bad = oracle(c["matrix"], out)
+        bad = oracle(c["matrix"], out) or impl_variants(c["matrix"], c["kind"], c["scale_log2"], out)
         if bad:
             found.append({"stream": "search", "case": c, "what": bad, "observed": list(out[:6])})
     if not found:
@@ -640,7 +699,7 @@ def replay(ctx, rp):
         out = impl_refuse(obj)
         return {"input": c, "implementation": list(out), "fails": out != ("Err", "ValueError")}
     out = impl_run(c["matrix"], c["kind"], c["scale_log2"])
-    bad = oracle(c["matrix"], out)
+    bad = oracle(c["matrix"], out) or impl_variants(c["matrix"], c["kind"], c["scale_log2"], out)
     return {"input": c, "implementation": list(out[:6]), "oracle": bad, "fails": bool(bad)}
 
 
@@ -678,8 +737,18 @@ LEVEL_TEXT = (
     "step with the model (exact integers; digest streams + exact field-by-field stream), plus the exact final results: all n x m "
     "matrices (n,m<=3) over {0,1,2}, 4x4 0/1 matrices (all 65,536 in the thorough tier, a fixed half in the quick tier), random "
     "integer / negative / duplicate-row / rectangular / bool / dyadic binary64 matrices up to 8x8 against brute force and up to "
-    "40x40 against the certificate checker (Coq and Python mirror), refusal of inf/nan/ragged/non-numeric/non-2-d input.")
+    "40x40 against the certificate checker (Coq and Python mirror), refusal of inf/nan/ragged/non-numeric/non-2-d input. Every "
+    "matrix is solved through the public name qcelemental.util.linear_sum_assignment and then again with return_cost omitted, "
+    "return_cost=False, as a nested list and a second time (same pairs / same reduced matrix required; the caller's array must be "
+    "left unchanged).")
 LEVEL_NOTE = (
+    "Clause map: existence of an answer for every finite matrix of every shape = C14_terminates + C14_steps_never_fail; "
+    "min(n,m) pairs / no repeats / increasing rows / minimum total cost / reduced matrix non-negative, zero on the pairs, "
+    "input minus row and column constants / optimal assignments on its zeros = C14_cert_sound + C14_certificate_optimal via "
+    "C14_total_correct; refusal of inf/nan/ragged = C14_refuses_nonfinite (+ C14_finite_reaches_solver, "
+    "C14_validated_entry_correct); refusal of non-numeric / non-2-d input, bool->int cast, binary64 entries, "
+    "return_cost omitted/False, nested-list input, the public name qcelemental.util.linear_sum_assignment, repeated calls and "
+    "'the caller's matrix is not modified' = only correspondence/oracle (variant calls on every matrix of every stream). "
     "Everything planned in DESIGN.md §6 C14 is proved, incl. the extension munkres_terminates (fuel bound (k+2)(2k+8), k=min(n,m), "
     "instead of the design's (n+1)^2(m+1)). Trusted: Coq kernel + vm_compute; the hand-written model (integer matrices; "
     "machine-integer overflow and binary64 rounding are outside the model, the float stream uses dyadic values whose arithmetic "
